@@ -196,6 +196,11 @@ def serTree (t : Tree) (d : Ini) : Except Err Ini := do
   let d ← addSection d sTree
   sets d sTree [(kArch, t.arch), (kPlatforms, platformsStr t), (kBuildTs, t.ts.str)]
 
+/-- `if self.parent: parser.set(section, "parent", self.parent.uid)` -/
+def parentOpt : Option Str → List (Str × Str)
+  | some p => [(kParent, p)]
+  | none => []
+
 mutual
 /-- `Variant.serialize` (`pu`: UID of the parent, `none` at top level) -/
 def serVariant (pu : Option Str) (d : Ini) : Variant → Except Err Ini
@@ -212,7 +217,7 @@ def serVariant (pu : Option Str) (d : Ini) : Variant → Except Err Ini
     match validateClass "treeinfo.VariantPaths" [] with
     | .error e => .error e
     | .ok () =>
-    match sets d2 (secName type uid) (pathOpts paths ++ match pu with | some p => [(kParent, p)] | none => []) with
+    match sets d2 (secName type uid) (pathOpts paths ++ parentOpt pu) with
     | .error e => .error e
     | .ok d3 =>
     match serVariants (some uid) d3 kids with
@@ -446,6 +451,13 @@ def loopAdd (rd : Str → Except Err Variant) : List Str → List Variant → Ex
       | .error e => .error e
       | .ok acc' => loopAdd rd us acc'
 
+/-- the type a variant has before its section is read: `addon=True` for children gives "addon", or "variant" when
+there is no `addon-` section (F7); nothing yet for a top-level variant -/
+def type0Of (d : Ini) (pu : Option Str) (uid0 : Str) : Str :=
+  match pu with
+  | some _ => if hasSection d (secName tAddon uid0) then tAddon else tVariant
+  | none => []
+
 /-- `Variant.deserialize(parser, uid, addon)` followed by the container's `add` checks on the result
 (`pu`: UID of the variant being filled, `none` for the top-level container; fuel bounds the nesting depth) -/
 def deVariant (g : Gate) (d : Ini) : Nat → Option Str → Str → Except Err Variant
@@ -455,10 +467,7 @@ def deVariant (g : Gate) (d : Ini) : Nat → Option Str → Str → Except Err V
     | .v0_0 | .v0_3 => .error .other
     | .v1_0 =>
     if uid0.isEmpty then .error .valueError else
-    -- `addon=True` for children: type "addon", or "variant" when there is no `addon-` section (F7)
-    let type0 : Str := match pu with
-      | some _ => if hasSection d (secName tAddon uid0) then tAddon else tVariant
-      | none => []
+    let type0 : Str := type0Of d pu uid0
     match get d (secName type0 uid0) kId with
     | .error e => .error e
     | .ok id =>
